@@ -121,11 +121,11 @@ pub fn cluster_properties() -> Vec<PropertyConfig> {
         },
         PropertyConfig {
             id: "C09",
-            profiles: &[General, Cancel, Kill, Fail, Dag, Retract, Client, Priority],
+            profiles: &[General, Cancel, Kill, Fail, Dag, Retract, Client, Priority, Restore, Prune],
             quick_runs: 36_000,
             thorough_runs: 1_000_000,
             triggers: &["launches"],
-            rule: "union of all profiles; every call into repository code runs under catch_unwind; non-trivial = at least one launch",
+            rule: "union of all profiles (including server restarts from the journal and prunes); every call into repository code runs under catch_unwind; non-trivial = at least one launch",
             force_journal: None,
             sweep_one_in: None,
             sweep_interior: 0,
